@@ -162,6 +162,8 @@ def main():
         direction = rng.choice(["up", "down", "left", "right"])
         for cls in (TimelineSVG, TimelineTex):
             opts = {"scale": TimeScale(), "direction": direction, "initialWidth": 600, "initialHeight": 600, "labella": {"maxPos": 560}}
+            if k % 2:
+                opts["latex"] = {"reproducible": True}
             dd = [dict(d) for d in data]
             L.call(cls.__name__ + ".export", lambda *_a: cls(dd, options=opts).export(), [d["time"] for d in data], direction)
     # wall-clock values that do not exist (spring-forward gap) or exist twice (fall-back) in one of the zones:
